@@ -99,13 +99,15 @@ class Mask(AbstractNDArray, ABC):
         -------
         A dictionary containing the pixel scale of the mask, which can be output to a .fits file.
         """
-        try:
-            return {"PIXSCALE": self.pixel_scale}
-        except exc.MaskException:
+        if (
+            len(self.pixel_scales) == 2
+            and abs(self.pixel_scales[0] - self.pixel_scales[1]) > 1.0e-8
+        ):
             return {
                 "PIXSCALEY": self.pixel_scales[0],
                 "PIXSCALEX": self.pixel_scales[1],
             }
+        return {"PIXSCALE": self.pixel_scales[0]}
 
     @property
     def dimensions(self) -> int:
